@@ -26,6 +26,10 @@ from . import c05
 
 FSX = os.path.join(core.BIN, "fsx")
 COLLISIONS = ["none", "file", "dir", "dangling", "dangling_into_dir", "link_to_file"]
+# the target IS (another route to) the source: symlink to it (absolute / relative), hard link of it, or a symlinked
+# parent directory under DIR that makes the target path resolve to the source itself
+SELF_COLLISIONS = ["link_to_source_abs", "link_to_source_rel", "hardlink_of_source", "symlinked_parent"]
+MUST_REFUSE = ("file", "dir", "link_to_file", "dangling", "dangling_into_dir") + tuple(SELF_COLLISIONS)
 
 
 def gen_component(rng):
@@ -132,6 +136,18 @@ def gen_cli_scenario(rng, sid, base, variant, collisions):
         elif col == "dangling_into_dir":       # the link's destination does not exist but its directory does
             extra.append(("dir", "hole"))
             extra.append(("symlink", rel, "hole/h%d" % i))
+        elif col == "link_to_source_abs":
+            extra.append(("symlink", rel, a))
+        elif col == "link_to_source_rel":
+            extra.append(("symlink_raw", rel, os.path.relpath(a, os.path.dirname(os.path.join(scn.base, rel)))))
+        elif col == "hardlink_of_source":
+            extra.append(("hardlink", rel, os.path.relpath(a, scn.base)))
+        elif col == "symlinked_parent":
+            # DIR/<abs path of the source's directory> is a symlink to that directory: lstat(target) finds the source
+            e = ("symlink", os.path.dirname(rel), os.path.dirname(a))
+            if e not in extra:
+                extra.append(e)
+            scn.model_skip = True       # symbolic links in the directory part of a path are outside FsModel.v
         elif col == "link_to_file":
             extra.append(("file", "elsewhere/e%d" % i, b"linked-%d" % i))
             extra.append(("symlink", rel, "elsewhere/e%d" % i))
@@ -209,7 +225,7 @@ def cli_oracle(c):
         if a not in inv1:
             if c05.bytes_follow(inv1, tgt) != b0:
                 bad.append(({"kind": "source_deleted_without_complete_copy"}, "%s is gone but %s does not hold its bytes" % (a, tgt)))
-        if col in ("file", "dir", "link_to_file", "dangling", "dangling_into_dir") and not killed:
+        if col in MUST_REFUSE and not killed:
             if inv1.get(a) != inv0[a]:
                 bad.append(({"kind": "colliding_source_not_left_in_place"}, "target %s existed (%s) but the source %s changed" % (tgt, col, a)))
             if summ["warn"] == 0:
@@ -221,7 +237,8 @@ def run(ctx):
     ctx.rule = ("(1) API: random (DIR, path) pairs over components with spaces, quotes, backslash, colon, non-UTF-8 bytes, dots, '..', "
                 "'/' alone, relative paths; a case = one pair; non-trivial = the source has at least one component after the root. "
                 "(2) CLI: one group of 1 retained + 2 victims, DIR outside / inside the tree / relative with '..' / registered as another mount point (use_rename = false), each victim's target "
-                "pre-populated with {nothing, file, directory, dangling symlink (destination directory missing / present), symlink to a file}; fault-free, each rename failed with "
+                "pre-populated with {nothing, file, directory, dangling symlink (destination directory missing / present), symlink to a file, "
+                "symlink to the SOURCE (absolute / relative), hard link of the source, symlinked parent directory resolving to the source's directory}; fault-free, each rename failed with "
                 "EXDEV (copy branch), one failure at every call; a case = one run of the binary under the shim")
     ctx.assumptions = ["no symbolic links in the directory part of the paths; symlink targets absolute",
                        "sources are absolute paths as Path::from builds them (C18_injective is stated for wf_abs paths; the relative "
@@ -252,12 +269,16 @@ def run(ctx):
     else:
         jobs = []
         combos = [("none", "none"), ("file", "none"), ("dir", "dangling"), ("dangling", "file"), ("link_to_file", "dir"),
-                  ("dangling", "dangling"), ("file", "link_to_file"), ("dangling_into_dir", "none"), ("dir", "dangling_into_dir")]
+                  ("dangling", "dangling"), ("file", "link_to_file"), ("dangling_into_dir", "none"), ("dir", "dangling_into_dir"),
+                  ("link_to_source_abs", "none"), ("link_to_source_rel", "hardlink_of_source"), ("hardlink_of_source", "link_to_source_abs"),
+                  ("symlinked_parent", "symlinked_parent")]
         if not ctx.quick:
-            combos += [(x, y) for x in COLLISIONS for y in COLLISIONS if (x, y) not in combos]
+            combos += [(x, y) for x in COLLISIONS + SELF_COLLISIONS[:3] for y in COLLISIONS + SELF_COLLISIONS[:3] if (x, y) not in combos]
         n = 0
         for variant in ("outside", "inside", "relative", "other_mount"):
             for col in combos:
+                if variant == "inside" and "hardlink_of_source" in col:
+                    continue        # a hard link inside the scanned tree would itself be a member of the group
                 seed = ctx.rng.next()
                 scn = gen_cli_scenario(core.SplitMix64(seed), "m%d" % n, ctx.scratch, variant, list(col))
                 scn.variant, scn.seed = variant, seed
@@ -291,6 +312,9 @@ def run(ctx):
             continue
         for sig, text in cli_oracle(c):
             ctx.violation(sig, "C18 violated by the implementation: " + text, payload(), found_input=True)
+        if getattr(c.scn, "model_skip", False):
+            ctx.bump("cli_correspondence_only(symlinked_directory_outside_the_model)", "oracle_evaluated")
+            continue
         if c.extra.get("abstraction_error"):
             corr.append((c, "trace", "the libc trace could not be abstracted to the model's calls: " + c.extra["abstraction_error"]))
             continue
